@@ -302,7 +302,12 @@ func (g *G) fileEntry(i int, typ string) *Content {
 		mk(s1 + "/x" + w() + e1)
 		mk(s2 + "/y" + w() + e1)
 		mk(s2 + "/z" + w() + e2)
-		kind := g.r.Intn(6)
+		// sibling directories where one name is a prefix of the other
+		l1 := "lib" + g.word(0)
+		l2 := l1 + "64"
+		mk(l1 + "/p" + w() + e1)
+		mk(l2 + "/q" + w() + e1)
+		kind := g.r.Intn(7)
 		var pat string
 		match := func(rel string) bool { return false }
 		common := sd
@@ -329,6 +334,9 @@ func (g *G) fileEntry(i int, typ string) *Content {
 		case 4: // alternation
 			pat = "{a,c}*"
 			match = func(rel string) bool { return !strings.Contains(rel, "/") && (rel[0] == 'a' || rel[0] == 'c') }
+		case 6: // sibling directories sharing a name prefix
+			pat = "lib*/*" + e1
+			match = func(rel string) bool { return strings.HasPrefix(rel, "lib") && strings.HasSuffix(rel, e1) }
 		case 5: // single match
 			pat = "c*" + e2
 			match = func(rel string) bool { return !strings.Contains(rel, "/") && rel[0] == 'c' && strings.HasSuffix(rel, e2) }
